@@ -64,7 +64,7 @@ def fmtWords (l : List Nat) : String := ".".intercalate (l.map (hexN 16))
 def fmtRaw (c : RawLru K V) : String := s!"cap={c.cap} {fmtAL c.items}"
 def fmtSlru (s : Slru K V) : String := "P{" ++ fmtRaw s.prob ++ "} Q{" ++ fmtRaw s.prot ++ "}"
 def fmtTwoQ (q : TwoQ K V) : String :=
-  s!"R{fmtAL q.recent.items} F{fmtAL q.frequent.items} G{fmtAL q.ghost.items}"
+  s!"rs={q.rs} gcap={q.ghost.cap} R{fmtAL q.recent.items} F{fmtAL q.frequent.items} G{fmtAL q.ghost.items}"
 def fmtArc (a : Arc K V) : String :=
   s!"p={a.p} T1{fmtAL a.recent.items} T2{fmtAL a.frequent.items} B1{fmtAL a.recentEvict.items} B2{fmtAL a.frequentEvict.items}"
 def fmtTiny (t : TinyLfu) : String :=
@@ -199,7 +199,10 @@ def runIter (items : AL K V) (kind script : String) (wbase : Nat) : Except Strin
     match Iter.run lru items sc (Iter.start items) with
     | .error f => .ok (.error f)
     | .ok ys =>
-      let txt := "[" ++ " ".intercalate (ys.map (fmtYield proj)) ++ "]"
+      let rest := match ys.getLast? with
+        | some y => y.2
+        | none => items.length
+      let txt := "[" ++ " ".intercalate (ys.map (fmtYield proj)) ++ s!"] count={rest}"
       let items' := if mutable ∧ wbase ≠ 0 then writeYields items wbase ys 0 else items
       .ok (.ok (txt, items'))
   | _, _ => .error s!"bad iter {kind} {script}"
@@ -455,9 +458,28 @@ def incAll (t : TinyLfu) : List Nat → Res TinyLfu
     | .error f => .error f
     | .ok t' => incAll t' r
 
-def stepTiny (t : TinyLfu) (op : String) (sargs : List String) : Ans :=
+def stepTiny (t : TinyLfu) (kh : K → UInt64) (op : String) (sargs : List String) : Ans :=
   let done (res : String) (t' : TinyLfu) : Ans := .ok { res := res, st := .tiny t' }
   let hs := sargs.mapM parseHex
+  let ks := (nats sargs).getD []
+  match op, ks with
+  | "inck", [k] =>
+    match t.increment (kh k) with
+    | .error f => .fault f
+    | .ok t' => done "()" t'
+  | "incks", l =>
+    match incAll t (l.map (fun k => (kh k).toNat)) with
+    | .error f => .fault f
+    | .ok t' => done "()" t'
+  | "estk", [k] =>
+    match t.estimate (kh k) with
+    | .error f => .fault f
+    | .ok n => done (toString n) t
+  | "hask", [k] =>
+    match t.contains (kh k) with
+    | .error f => .fault f
+    | .ok b => done (fmtBool b) t
+  | _, _ =>
   match op, hs with
   | "inc", some [h] =>
     match t.increment (UInt64.ofNat h) with
@@ -480,9 +502,9 @@ def stepTiny (t : TinyLfu) (op : String) (sargs : List String) : Ans :=
   | "cmp", _ =>
     match sargs with
     | [c, x, y] =>
-      match parseCmp c, parseHex x, parseHex y with
+      match parseCmp c, x.toNat?, y.toNat? with
       | some c, some x, some y =>
-        match t.compare c (UInt64.ofNat x) (UInt64.ofNat y) with
+        match t.compare c (kh x) (kh y) with
         | .error f => .fault f
         | .ok b => done (fmtBool b) t
       | _, _, _ => .bad "cmp args"
@@ -693,7 +715,7 @@ def stepSt (w : World) (op : String) (sargs : List String) (implOut : String) : 
   | .twoq q => stepTwoQ q op a sargs
   | .arc c => stepArc c op a sargs
   | .wt c => stepWT c w.kh op a
-  | .tiny t => stepTiny t op sargs
+  | .tiny t => stepTiny t w.kh op sargs
   | .sam s => stepSam s op sargs implOut
 
 def fmtOutc (o : Outc) : String :=
@@ -701,9 +723,10 @@ def fmtOutc (o : Outc) : String :=
   let base := match o.cbs with
     | some c => base ++ s!" | cb={fmtCbs c}"
     | none => base
-  match o.drops with
-  | some d => base ++ s!" | dr={fmtDrops d}"
-  | none => base
+  let base := match o.drops with
+    | some d => base ++ s!" | dr={fmtDrops d}"
+    | none => base
+  base ++ " | au=ok"
 
 /-! ## main loop -/
 
@@ -757,7 +780,7 @@ def handle (d : Drv) (line : String) : Drv × List String :=
     | _, _, _ => (d, [lhs])
   | "end" :: _ =>
     match d.world with
-    | some w => ({}, [s!"end => dr={fmtDrops (w.main.dropAll ++ (match w.alt with | some a => a.dropAll | none => []))}"])
+    | some w => ({}, [s!"end => dr={fmtDrops (w.main.dropAll ++ (match w.alt with | some a => a.dropAll | none => []))} | heap=0 | live=0 | dd=0"])
     | none => ({}, ["end"])
   | op :: sargs =>
     match d.world with
